@@ -100,7 +100,7 @@ def random_pipes(seed, n, kind):
 
     from cvf import families
 
-    rnd = random.Random(seed * 7907 + hash(kind) % 1000)
+    rnd = random.Random(seed * 7907 + {"integrate": 1, "evidence": 2, "conjugate": 3, "differentiate": 4, "multiply": 5}[kind])
     inputs = {
         "integrate": ["cat-softmax", "cat-logits", "cat2-probs", "embedding"],
         "evidence": ["cat-softmax", "cat-logits", "embedding"],
